@@ -30,7 +30,6 @@ from immutabledict import immutabledict
 from typing_extensions import TypeAlias
 
 import pytools.lex
-from pytools import memoize_method
 
 
 _imaginary = intern("imaginary")
@@ -119,7 +118,8 @@ class FinalizedTuple(tuple, FinalizedContainer):
 
 
 class FinalizedList(list, FinalizedContainer):
-    @memoize_method
+    # Not memoized: the memo would sit in the instance __dict__ and travel in
+    # pickles to processes with a different string-hash seed.
     def __hash__(self) -> int:  # type: ignore[override]
         result = hash(type(self).__name__)
         for it in self:
